@@ -181,6 +181,7 @@ theorem subInv_estep {s s' : St} (h : SubInv s) (st : EStep s s') : SubInv s' :=
   cases st with
   | incReg => exact subInv_of_cc (by unfold St.incReg; rw [frames_mapFrames]; simp [List.map_map, Function.comp_def]) h
   | emit i _ _ _ _ => exact subInv_push h i
+  | branch i _ _ _ _ _ => exact subInv_push h i
   | incEmit i _ _ _ _ =>
     exact subInv_push (subInv_of_cc (by unfold St.incReg; rw [frames_mapFrames]; simp [List.map_map, Function.comp_def]) h) i
   | addErr k v l o => exact subInv_of_cc (s := s) rfl h
@@ -417,6 +418,7 @@ theorem ss_estep {s s' : St} (st : EStep s s') : s'.shapesStack = s.shapesStack 
   cases st with
   | incReg => exact ss_incReg s
   | emit i _ _ _ _ => exact ss_push i s
+  | branch i _ _ _ _ _ => exact ss_push i s
   | incEmit i _ _ _ _ => rw [ss_push]; exact ss_incReg s
   | addErr k v l o => rfl
   | declare n v i _ _ _ _ _ =>
